@@ -112,6 +112,16 @@ CHECKS = {
          "distribution. Right level: channel weights/signs/axes are polynomial identities in symbolic inputs which the solver covers for all values.",
     design="3/C06", engine="symx+llsym",
     technique="symbolic execution of clang LLVM IR of the generated magnetic kernels under the real Python driver on z3 proxies; argument-alignment lemmas (QF_NRA, UF abstracted, circle/sqrt axioms) + accumulator obligations; counterexamples replayed on the real DLL against the documented channel formula evaluated with the real non-magnetic kernel"),
+ "C16": dict(
+    text="A fixed family of reparameterisations (affine and power-law maps, intermediate variables, insert_after placements; oriented, hollow and "
+         "validity-constrained base models) is built by the real core.reparameterize; the generated kernel source (TRANSLATION_VARS, VALID, CALL_* macros "
+         "inside the real dispersity loop) is compiled to LLVM IR and executed symbolically under the real Python driver on z3 proxies, with new-parameter "
+         "values, meshes over new parameters, q and cutoff symbolic and the base model's leaf functions uninterpreted. z3 shows that the accumulators and "
+         "outputs equal the base leaves applied to translate(x) -- the translation text compiled as a plain C function independently of generate.py -- gated by "
+         "the base validity predicate at translate(x) and volume-normalised over the mesh; untouched parameters keep name/order/limits. Right level: "
+         "substitution/prefixing/validity errors are term disequalities found for all parameter values; arbitrary translations outside the family are not covered.",
+    design="3/C16", engine="symx+llsym",
+    technique="symbolic execution of clang LLVM IR of the generated derived-model kernels under the real Python driver on z3 proxies; reference translation = the translation text as plain C executed by the same IR interpreter; z3 QF_UFNRA obligations; replay on the real DLLs of derived and base model"),
 }
 
 NOT_YET = "check not built yet in this round (planned in DESIGN.md section 3); not claimed"
